@@ -2,7 +2,7 @@
 EXTENDS GitAiCore
 
 \* print a replayable script for every distinct state reached by an observable action
-EmitAfter == {"Commit", "Rebase", "CherryPick", "Amend", "MergeSquash", "IRebase", "CherryPickMany"}
+EmitAfter == {"Commit", "Rebase", "CherryPick", "Amend", "MergeSquash", "IRebase", "CherryPickMany", "CherryPickR", "CherryPickManyR", "RebaseR"}
 Emit == (hist # <<>> /\ hist[Len(hist)].a \in EmitAfter) => PrintT(<<"REPLAY", ToJson(hist)>>)
 
 G_C01_Exact      == Clean(C01_Exact)
@@ -12,4 +12,5 @@ G_C03_Notes      == Clean(C03_Notes)
 G_C03_Blame      == Clean(C03_Blame)
 G_C05_WellFormed == Clean(C05_WellFormed)
 DbgNoCleanHumanCkpt == ~(\E i \in DOMAIN hist : hist[i].a = "Ckpt" /\ hist[i].kind = "human" /\ hist[i].files = {})
+DbgNoR == \A i \in DOMAIN hist : hist[i].a \notin {"CherryPickR", "RebaseR", "CherryPickManyR"}
 ==============================================================================
